@@ -1,4 +1,4 @@
-"""Regenerates coq/Gen/C15_save.v from data/container.py (DESIGN 2.3 A).
+"""Regenerates coq/Gen/C15_save.v from data/container.py and coq/Gen/C15_state.v from data/items.py (DESIGN 2.3 A).
 
 Fail-closed extractor: DataContainer.save and DataContainer.load are walked statement by statement;
 every statement must be either on the ignore list (logging, `path = Path(path)`, the local import of
@@ -202,7 +202,89 @@ def load_steps(f: ast.FunctionDef):
     return steps, names
 
 
+# ---------------------------------------------------------------------------------------------
+# data/items.py: what an ItemList object consists of, and the shape of the three methods the codec model
+# (Model/C15_codec.v, Model/C15_derive.v) was written after.  Nothing here raises: the shapes are written
+# out as they are found and Proofs/C15_state.v compares them with the ones the model follows, so a change
+# stops Props/C15.v from compiling while the executable model (and with it the correspondence) still runs.
+# ---------------------------------------------------------------------------------------------
+
+STATE_HEADER = """(* GENERATED on every run by harness/translate/c15.py from
+   src/lenskit/data/items.py -- do not edit.
+   itemlist_attrs   : every attribute an ItemList object can carry (class-level declarations and every
+                      attribute assigned or deleted anywhere in the class), sorted
+   itemlist_dict_ops: every statement of the class that touches __dict__ / setattr / vars / __slots__
+   *_shape          : the method as a list of (guards on the path, statement) *)
+From Coq Require Import List String.
+Import ListNotations.
+Open Scope string_scope.
+
+"""
+
+
+def _cq(s: str) -> str:
+    s = s.encode("ascii", "backslashreplace").decode()
+    return '"' + s.replace('"', '""') + '"'
+
+
+def _is_docstring(st) -> bool:
+    return isinstance(st, ast.Expr) and isinstance(st.value, ast.Constant) and isinstance(st.value.value, str)
+
+
+def guarded_statements(stmts, guards=()):
+    out = []
+    for st in stmts:
+        if _is_docstring(st):
+            continue
+        if isinstance(st, ast.If):
+            t = ast.unparse(st.test)
+            out += guarded_statements(st.body, guards + (t,))
+            if st.orelse:
+                out += guarded_statements(st.orelse, guards + (f"not ({t})",))
+        elif isinstance(st, ast.For) and not st.orelse:
+            out += guarded_statements(st.body, guards + (f"for {ast.unparse(st.target)} in {ast.unparse(st.iter)}",))
+        elif isinstance(st, (ast.Assign, ast.AnnAssign, ast.AugAssign, ast.Delete, ast.Return, ast.Expr, ast.Raise, ast.Assert, ast.Pass)):
+            out.append((" && ".join(guards), ast.unparse(st)))
+        else:
+            out.append((" && ".join(guards), f"<unsupported {type(st).__name__}> " + ast.unparse(st)))
+    return out
+
+
+def itemlist_state(src) -> str:
+    tree = pyq.parse(src / "lenskit" / "data" / "items.py")
+    cs = [n for n in tree.body if isinstance(n, ast.ClassDef) and n.name == "ItemList"]
+    text = STATE_HEADER
+    if len(cs) != 1:
+        return text + "(* class ItemList not found exactly once *)\n"
+    cls = cs[0]
+    attrs = set()
+    for st in cls.body:
+        if isinstance(st, ast.AnnAssign) and isinstance(st.target, ast.Name):
+            attrs.add(st.target.id)
+        elif isinstance(st, ast.Assign):
+            attrs.update(t.id for t in st.targets if isinstance(t, ast.Name))
+    dict_ops = []
+    for node in ast.walk(cls):
+        if isinstance(node, ast.Attribute) and isinstance(node.ctx, (ast.Store, ast.Del)):
+            attrs.add(node.attr)
+        if isinstance(node, ast.stmt) and not isinstance(node, (ast.FunctionDef, ast.ClassDef, ast.If, ast.For, ast.While, ast.With, ast.Try)):
+            t = ast.unparse(node)
+            if not _is_docstring(node) and any(w in t for w in ("__dict__", "setattr(", "vars(", "__slots__", "__setattr__")):
+                dict_ops.append(t)
+    text += "Definition itemlist_attrs : list string := [" + "; ".join(_cq(a) for a in sorted(attrs)) + "].\n\n"
+    text += "Definition itemlist_dict_ops : list string := [" + "; ".join(_cq(a) for a in dict_ops) + "].\n\n"
+    for meth, name in (("__getstate__", "getstate_shape"), ("__setstate__", "setstate_shape"), ("arrow_types", "arrow_types_shape")):
+        fs = [n for n in cls.body if isinstance(n, ast.FunctionDef) and n.name == meth]
+        if len(fs) != 1:
+            text += f"(* method {meth} not found exactly once *)\n"
+            continue
+        rows = guarded_statements(fs[0].body)
+        text += f"Definition {name} : list (string * string) := [\n  " + ";\n  ".join(f"({_cq(g)}, {_cq(t)})" for g, t in rows) + "].\n\n"
+    return text
+
+
 def translate(src) -> dict:
+    state_text = itemlist_state(src)
     tree = pyq.parse(src / "lenskit" / "data" / "container.py")
     # the names save uses must be the module-level imports (what the harness wraps)
     imports = {a.asname or a.name: (n.module, a.name) for n in tree.body if isinstance(n, ast.ImportFrom) for a in n.names}
@@ -227,4 +309,4 @@ def translate(src) -> dict:
     text = HEADER
     text += "Definition save_steps : list save_step := [" + "; ".join(s_steps) + "].\n\n"
     text += "Definition load_steps : list load_step := [" + "; ".join(l_steps) + "].\n"
-    return {"Gen/C15_save.v": text}
+    return {"Gen/C15_save.v": text, "Gen/C15_state.v": state_text}
